@@ -154,6 +154,6 @@ pub fn spec() -> PropSpec {
         rule: "channel source fed by the harness task (1-3 elements after pauses of 0, max_delay/2 or 3 x max_delay of virtual time), which then keeps the sender open and idle; 1-3 block boundaries (shuffle / group_by), parallelism 1-2; adaptive modes (size 2 and 1024, max_delay 50 ms): every element must reach the collect_channel sink while the source is still open, within 2 x depth x max_delay of virtual time; all modes (adaptive, fixed 2 / 1024, single): after the source is closed the sink has received exactly the sent elements; virtual timers fire when every task waits, or early as a deviation; every schedule within the deviation bound under three canonical orders; non-trivial = adaptive mode",
         assumptions: &["virtual time: the latency claim is about timer order and count, not OS latency", "deviation bound as reported"],
         exhaustive_when_uncapped: false,
-        budget_s: (55, 1800),
+        budget_s: (55, 1200),
     }
 }
